@@ -20,7 +20,8 @@ Record prow := { p_id : Z; p_x : val }.
 Record crow := { c_id : Z; c_pid : val; c_y : val; c_kind : Z }.
 (* [ns]: the rows of the self-referential table node(id, parent_id -> node.id NULL-able, data), stored in the
    shape of a child row: c_id = id, c_pid = parent_id, c_y = data (c_kind unused) *)
-Record db := { ps : list prow; cs : list crow; ns : list crow }.
+Record db := { ps : list prow; cs : list crow; ns : list crow; pn : list (Z * Z) }.
+(* [pn]: association table pn(p_id, n_id) of the bidirectional many-to-many  P.tags <-> Node.holders *)
 
 (* ================= 1. Core ================= *)
 Inductive cmpop := OEq | ONe | OLt | OLe | OGt | OGe.
@@ -32,7 +33,7 @@ Definition cmpZ (o : cmpop) (a b : Z) : bool :=
 Definition cmp3 (o : cmpop) (a b : val) : tv :=
   match a, b with Some x, Some y => tv_of_bool (cmpZ o x y) | _, _ => TU end.
 
-Inductive tab := TabP | TabC | TabN.
+Inductive tab := TabP | TabC | TabN | TabA.
 Inductive col := ColId | ColX | ColPid | ColY | ColKind.
 (* a row of either table; columns a table does not have are NULL; the all-NULL row is the outer-join filler *)
 Record grow := { g_id : val; g_x : val; g_pid : val; g_y : val; g_kind : val }.
@@ -41,10 +42,14 @@ Definition grow_p (p : prow) : grow :=
   {| g_id := Some (p_id p); g_x := p_x p; g_pid := None; g_y := None; g_kind := None |}.
 Definition grow_c (c : crow) : grow :=
   {| g_id := Some (c_id c); g_x := None; g_pid := c_pid c; g_y := c_y c; g_kind := Some (c_kind c) |}.
+Definition grow_a (a : Z * Z) : grow :=      (* association row: g_id = p_id, g_pid = n_id *)
+  {| g_id := Some (fst a); g_x := None; g_pid := Some (snd a); g_y := None; g_kind := None |}.
 Definition gcol (r : grow) (c : col) : val :=
   match c with ColId => g_id r | ColX => g_x r | ColPid => g_pid r | ColY => g_y r | ColKind => g_kind r end.
 Definition rows_of (d : db) (t : tab) : list grow :=
-  match t with TabP => map grow_p (ps d) | TabC => map grow_c (cs d) | TabN => map grow_c (ns d) end.
+  match t with
+  | TabP => map grow_p (ps d) | TabC => map grow_c (cs d) | TabN => map grow_c (ns d) | TabA => map grow_a (pn d)
+  end.
 
 Definition env := list (nat * grow).            (* alias -> row, innermost first *)
 Fixpoint lookup (e : env) (a : nat) : grow :=
@@ -151,8 +156,15 @@ Definition group_count (l : list (val * val)) : list krow :=
 Inductive cq :=
 | CSel (s : sel)
 | CGroup (s : sel) (key cnt : ex)          (* SELECT key, count(cnt) FROM .. WHERE .. GROUP BY key ORDER BY key *)
-| CUnion (a b : sel).                      (* SELECT id FROM (a UNION b) ORDER BY id; a, b select (id, x) *)
+| CUnion (a b : sel)                       (* SELECT id FROM (a UNION b) ORDER BY id; a, b select (id, x) *)
+| CUnionW (a b : sel) (post : bx).         (* SELECT id FROM (a UNION b) AS u WHERE post ORDER BY id; a, b select all
+                                              columns of c; post sees the union row under alias 0 *)
 
+Definition grow_of_vals (r : list val) : grow :=
+  match r with
+  | [i; p; y; k] => {| g_id := i; g_x := None; g_pid := p; g_y := y; g_kind := k |}
+  | _ => null_row
+  end.
 Definition kv_of (d : db) (s : sel) (key cnt : ex) : list (val * val) :=
   map (fun e => (eeval e key, eeval e cnt)) (sel_envs d s).
 Definition core_rows (d : db) (q : cq) : list krow :=
@@ -161,6 +173,10 @@ Definition core_rows (d : db) (q : cq) : list krow :=
   | CGroup s key cnt => group_count (kv_of d s key cnt)
   | CUnion a b =>
     map (fun r => (firstn 1 r, firstn 1 r)) (dedup_rows (map snd (sel_rows d a) ++ map snd (sel_rows d b)) [])
+  | CUnionW a b post =>
+    map (fun r => (firstn 1 r, firstn 1 r))
+        (filter (fun r => is_true (beval d [(0, grow_of_vals r)] post))
+                (dedup_rows (map snd (sel_rows d a) ++ map snd (sel_rows d b)) []))
   end.
 Definition core_exec (d : db) (q : cq) : list (list val) := order_rows (core_rows d q).
 
@@ -174,10 +190,14 @@ Inductive pcrit :=
 | PContains (cid : Z)        (* P.children.contains(<the C object with this id>) *)
 | PExists (s : sx)           (* exists().where(C.pid == P.id, crit) written by hand *)
 | PIn (s : sx)               (* P.id.in_(select(C.pid).where(crit)) *)
+| PTagAny (s : sx)           (* many-to-many: P.tags.any(crit on Node.data) *)
+| PTagNested (s : sx)        (* P.tags.any(Node.holders.any(crit on P.x)): nested across the shared association table *)
 | PAnd (a b : pcrit) | POr (a b : pcrit) | PNot (a : pcrit).
 Inductive ccrit :=
 | CS (s : sx)                (* criterion on C.y *)
 | CHas (s : sx)              (* C.parent.has(crit on P.x) *)
+| CNoParent                  (* C.parent == None  (many-to-one compared with None; negated: != None) *)
+| CHasAny (s : sx)           (* C.parent.has(P.children.any(crit on C.y)): nested, coming back to C *)
 | CAnd (a b : ccrit) | COr (a b : ccrit) | CNot (a : ccrit).
 (* criteria on the self-referential entity Node: Node.children.any(..) / Node.parent.has(..); the keyword forms
    any(data=k) / has(data=k) are the same criteria as the expression forms with data == k *)
@@ -196,6 +216,8 @@ Inductive oq :=
 | QGroup (sc : sx)                                        (* select(P, count(C.id)).outerjoin(P.children).where(sc).group_by(P.id) *)
 | QUnion (a b : pcrit)                                    (* select(aliased(P, union(select(P).where(a), select(P).where(b)))) *)
 | QN (c : ncrit)                                          (* select(Node).where(c) *)
+| QUnionC (a b : sx) (post : ccrit)
+(* legacy query(C).filter(a).union(query(C).filter(b)).filter(post) / select(aliased(C, union.subquery())).where(post) *)
 | QSibs (vals : bool) (sc : sx).
 (* select(Sub, SubA).where(Sub.pid == SubA.pid, sc on SubA.y): the single-table subclass twice as separate FROM
    entities (class + aliased(), or two aliases); vals: select(Sub.id, SubA.id) instead of the entities *)
@@ -220,6 +242,10 @@ Definition pj (pa ca : nat) : bx := BCmp OEq (ECol pa ColId) (ECol ca ColPid).
 (* Sub._single_table_criterion :  c.kind IN (1) *)
 Definition sub_crit (ca : nat) : bx := BInList (ECol ca ColKind) [1%Z].
 
+(* join of p (alias pa) and node (alias na) through the association row (alias aa) *)
+Definition aj (pa na aa : nat) : bx :=
+  BAnd (BCmp OEq (ECol pa ColId) (ECol aa ColId)) (BCmp OEq (ECol na ColId) (ECol aa ColPid)).
+
 Fixpoint tr_pcrit (d : db) (pa : nat) (c : pcrit) : bx :=
   match c with
   | PS s => tr_sx pa ColX s
@@ -228,6 +254,12 @@ Fixpoint tr_pcrit (d : db) (pa : nat) (c : pcrit) : bx :=
   | PContains cid => BCmp OEq (ECol pa ColId) (EConst (fk_of d cid))
   | PExists s => BExists TabC sub_alias (BAnd (BCmp OEq (ECol sub_alias ColPid) (ECol pa ColId)) (tr_sx sub_alias ColY s))
   | PIn s => BInSub (ECol pa ColId) TabC sub_alias ColPid (tr_sx sub_alias ColY s)
+  (* EXISTS (SELECT 1 FROM node, pn WHERE p.id = pn.p_id AND node.id = pn.n_id AND crit) *)
+  | PTagAny s => BExists TabN 2 (BExists TabA 3 (BAnd (aj pa 2 3) (tr_sx 2 ColY s)))
+  (* .. AND EXISTS (SELECT 1 FROM p, pn WHERE node.id = pn.n_id AND p.id = pn.p_id AND crit): the inner p and pn
+     are FROM elements of the inner SELECT, they do not correlate to the enclosing ones *)
+  | PTagNested s =>
+    BExists TabN 2 (BExists TabA 3 (BAnd (aj pa 2 3) (BExists TabP 4 (BExists TabA 5 (BAnd (aj 4 2 5) (tr_sx 4 ColX s))))))
   | PAnd x y => BAnd (tr_pcrit d pa x) (tr_pcrit d pa y)
   | POr x y => BOr (tr_pcrit d pa x) (tr_pcrit d pa y)
   | PNot x => BNot (tr_pcrit d pa x)
@@ -236,6 +268,10 @@ Fixpoint tr_ccrit (ca : nat) (c : ccrit) : bx :=
   match c with
   | CS s => tr_sx ca ColY s
   | CHas s => BExists TabP sub_alias (BAnd (BCmp OEq (ECol sub_alias ColId) (ECol ca ColPid)) (tr_sx sub_alias ColX s))
+  | CNoParent => BIsNull (ECol ca ColPid)          (* adapt_criterion_to_null: c.pid IS NULL, negation IS NOT NULL *)
+  | CHasAny s =>
+    BExists TabP 2 (BAnd (BCmp OEq (ECol 2 ColId) (ECol ca ColPid))
+                         (BExists TabC 3 (BAnd (BCmp OEq (ECol 2 ColId) (ECol 3 ColPid)) (tr_sx 3 ColY s))))
   | CAnd x y => BAnd (tr_ccrit ca x) (tr_ccrit ca y)
   | COr x y => BOr (tr_ccrit ca x) (tr_ccrit ca y)
   | CNot x => BNot (tr_ccrit ca x)
@@ -274,6 +310,10 @@ Definition sel_pc (outer : bool) (on w : bx) (cols : list ex) : sel :=
      s_joins := [ {| f_outer := outer; f_tab := TabC; f_alias := 1; f_on := on |} ];
      s_where := w; s_cols := cols; s_order := [ECol 0 ColId; ECol 1 ColId] |}.
 
+Definition sel_call (w : bx) : sel :=
+  {| s_tab := TabC; s_alias := 0; s_joins := []; s_where := w;
+     s_cols := [ECol 0 ColId; ECol 0 ColPid; ECol 0 ColY; ECol 0 ColKind]; s_order := [ECol 0 ColId] |}.
+
 Definition orm_to_core (d : db) (q : oq) : cq :=
   match q with
   | QP c => CSel (sel_p (tr_pcrit d 0 c) [ECol 0 ColId])
@@ -293,6 +333,7 @@ Definition orm_to_core (d : db) (q : oq) : cq :=
   | QN c => CSel {| s_tab := TabN; s_alias := 0; s_joins := []; s_where := tr_ncrit 0 c;
                     s_cols := [ECol 0 ColId]; s_order := [ECol 0 ColId] |}
   | QSibs _ sc => CSel (sel_sibs sc)
+  | QUnionC a b post => CUnionW (sel_call (tr_sx 0 ColY a)) (sel_call (tr_sx 0 ColY b)) (tr_ccrit 0 post)
   end.
 
 (* which result columns are entities (of which identity class), which are plain values *)
@@ -307,6 +348,7 @@ Definition col_kinds (q : oq) : list ckind :=
   | QGroup _ => [KEnt TabP; KVal]
   | QUnion _ _ => [KEnt TabP]
   | QN _ => [KEnt TabN]
+  | QUnionC _ _ _ => [KEnt TabC]
   | QSibs false _ => [KEnt TabC; KEnt TabC]
   | QSibs true _ => [KVal; KVal]
   end.
@@ -315,7 +357,7 @@ Definition col_kinds (q : oq) : list ckind :=
 Inductive item := IEnt (oid : nat) (pk : Z) | INone | IVal (v : val).
 Definition idmap := list ((tab * Z) * nat).
 Definition tab_eqb (a b : tab) : bool :=
-  match a, b with TabP, TabP | TabC, TabC | TabN, TabN => true | _, _ => false end.
+  match a, b with TabP, TabP | TabC, TabC | TabN, TabN | TabA, TabA => true | _, _ => false end.
 Definition im_find (m : idmap) (t : tab) (pk : Z) : option nat :=
   match find (fun e => tab_eqb (fst (fst e)) t && Z.eqb (snd (fst e)) pk) m with
   | Some e => Some (snd e) | None => None end.
@@ -398,6 +440,9 @@ Definition child_of (c : crow) (p : prow) : bool :=
   match c_pid c with Some v => Z.eqb v (p_id p) | None => false end.
 Definition is_sub (c : crow) : bool := Z.eqb (c_kind c) 1.
 
+(* the association row a links parent p and node n *)
+Definition link (a : Z * Z) (p : prow) (n : crow) : bool := Z.eqb (p_id p) (fst a) && Z.eqb (c_id n) (snd a).
+
 Fixpoint peval (d : db) (p : prow) (c : pcrit) : tv :=
   match c with
   | PS s => sxeval s (p_x p)
@@ -406,6 +451,11 @@ Fixpoint peval (d : db) (p : prow) (c : pcrit) : tv :=
   | PContains cid => tv_of_bool (match find_child d cid with Some c => child_of c p | None => false end)
   | PExists s => tv_of_bool (existsb (fun c => child_of c p && is_true (sxeval s (c_y c))) (cs d))
   | PIn s => in3 (Some (p_id p)) (map c_pid (filter (fun c => is_true (sxeval s (c_y c))) (cs d)))
+  | PTagAny s =>
+    tv_of_bool (existsb (fun n => existsb (fun a => link a p n && is_true (sxeval s (c_y n))) (pn d)) (ns d))
+  | PTagNested s =>
+    tv_of_bool (existsb (fun n => existsb (fun a => link a p n &&
+      existsb (fun p' => existsb (fun a' => link a' p' n && is_true (sxeval s (p_x p'))) (pn d)) (ps d)) (pn d)) (ns d))
   | PAnd a b => and3 (peval d p a) (peval d p b)
   | POr a b => or3 (peval d p a) (peval d p b)
   | PNot a => not3 (peval d p a)
@@ -414,6 +464,10 @@ Fixpoint ceval (d : db) (c : crow) (k : ccrit) : tv :=
   match k with
   | CS s => sxeval s (c_y c)
   | CHas s => tv_of_bool (existsb (fun p => child_of c p && is_true (sxeval s (p_x p))) (ps d))
+  | CNoParent => match c_pid c with None => TT | Some _ => TF end
+  | CHasAny s =>
+    tv_of_bool (existsb (fun p => child_of c p &&
+                  existsb (fun c' => child_of c' p && is_true (sxeval s (c_y c'))) (cs d)) (ps d))
   | CAnd a b => and3 (ceval d c a) (ceval d c b)
   | COr a b => or3 (ceval d c a) (ceval d c b)
   | CNot a => not3 (ceval d c a)
@@ -460,6 +514,13 @@ Definition pc_cols (m : colmode) (pc : prow * option crow) : list val :=
   | ColEnt => [p_x (fst pc); oc_id (snd pc)]
   end.
 
+Definition cvals (c : crow) : list val := [Some (c_id c); c_pid c; c_y c; Some (c_kind c)].
+Definition crow_of_vals (r : list val) : crow :=
+  match r with
+  | [Some i; p; y; Some k] => {| c_id := i; c_pid := p; c_y := y; c_kind := k |}
+  | _ => {| c_id := 0; c_pid := None; c_y := None; c_kind := 0 |}
+  end.
+
 Definition meaning_rows (d : db) (q : oq) : list krow :=
   match q with
   | QP c => map (fun p => ([Some (p_id p)], [Some (p_id p)])) (filter (fun p => is_true (peval d p c)) (ps d))
@@ -478,6 +539,11 @@ Definition meaning_rows (d : db) (q : oq) : list krow :=
         (dedup_rows (map (fun p => [Some (p_id p); p_x p]) (filter (fun p => is_true (peval d p a)) (ps d)) ++
                      map (fun p => [Some (p_id p); p_x p]) (filter (fun p => is_true (peval d p b)) (ps d))) [])
   | QN c => map (fun n => ([Some (c_id n)], [Some (c_id n)])) (filter (fun n => is_true (neval d n c)) (ns d))
+  | QUnionC a b post =>
+    map (fun r => (firstn 1 r, firstn 1 r))
+        (filter (fun r => is_true (ceval d (crow_of_vals r) post))
+                (dedup_rows (map cvals (filter (fun c => is_true (sxeval a (c_y c))) (cs d)) ++
+                             map cvals (filter (fun c => is_true (sxeval b (c_y c))) (cs d))) []))
   | QSibs _ sc =>
     map (fun ab => ([Some (c_id (fst ab)); Some (c_id (snd ab))], [Some (c_id (fst ab)); Some (c_id (snd ab))]))
         (filter (fun ab => (same_parent (fst ab) (snd ab) && is_true (sxeval sc (c_y (snd ab)))) &&
